@@ -16,12 +16,18 @@ CHECKS = {
     'C18': dict(cat='proof', design='§6 C18', technique='Lean 4 theorems (root_eq_dense, update_proof_authenticates, update_frame, invariant; all depths and histories, abstract hash) + T-corr of the hand-written model against the real PoseidonTree',
                 text='Refinement of the persistent tree to the dense reference tree by a representation invariant, for every depth and update history; model tied to the Go code by differential histories.',
                 note='Model hand-written; tie is behavioural. iden3 Poseidon trusted as hash.'),
+    'C12': dict(cat='other', design='§6 C12', technique='Lean decide over regenerated struct-tag facts (one public input; depth guard) + SHA-256 equality of the compiled constraint system across build paths, fresh processes and GOMAXPROCS values',
+                text='Exactly one ,public field per circuit and the depth guard are Lean theorems over facts regenerated from the current tree; byte-identity of the constraint system across BuildR1CS*, Import*Setup and `gnark-mbu r1cs`, across fresh processes with GOMAXPROCS 1/2/16, is observed (hash equality), and the compiled circuit is tied to the proved model by T-trace.',
+                note='Partial: determinism of gnark compilation under arbitrary scheduling is observed by repetition, not proved.'),
+    'C17': dict(cat='translation_validation', design='§6 C17', technique='byte equality of the committed model with a fresh extraction at (30,4); repeated extraction across processes; Lean decide that every referenced SemaphoreMTB.* identifier is defined',
+                text='The committed FormalVerification.lean is compared byte-for-byte with prover.ExtractLean(30,4) of the current tree; extraction repeated in fresh processes with different GOMAXPROCS and over a sweep of dimensions; identifier facts regenerated and decided in Lean.',
+                note='Partial: extractor determinism across schedules observed only; the old-toolchain proofs in /repo/formal-verification cannot be rebuilt here.'),
 }
 
 PENDING = {
     'C03': 'being built: composition theorem of C01/C02/C04/C05/C06 for the full circuits',
     'C04': 'being built: Keccak gadget proof',
     'C07': 'being built', 'C08': 'being built', 'C09': 'being built', 'C10': 'being built', 'C11': 'being built',
-    'C12': 'being built', 'C13': 'being built', 'C14': 'being built', 'C15': 'being built', 'C16': 'being built',
-    'C17': 'being built', 'C19': 'being built', 'C20': 'being built',
+    'C13': 'being built', 'C14': 'being built', 'C15': 'being built', 'C16': 'being built',
+    'C19': 'being built', 'C20': 'being built',
 }
